@@ -372,6 +372,20 @@ func (s *pState) flush(cw *cwriter.Writer, height int, iter <-chan *Bar) error {
 	var popCount int
 	var rows []io.Reader
 
+	// Bars which stay are pushed back only after the heap manager is done
+	// with the ordered iteration: while it iterates it doesn't serve its
+	// queue, so pushing from here could block forever once the queue is full.
+	type survivor struct {
+		bar  *Bar
+		sync bool
+	}
+	var survivors []survivor
+	defer func() {
+		for _, x := range survivors {
+			s.hm.push(x.bar, x.sync)
+		}
+	}()
+
 	for b := range iter {
 		frame := <-b.frameCh
 		vhook("flush.bar", b, frame.shutdown, verifErrFlag(frame.err))
@@ -396,13 +410,13 @@ func (s *pState) flush(cw *cwriter.Writer, height int, iter <-chan *Bar) error {
 			if qb, ok := s.queueBars[b]; ok {
 				delete(s.queueBars, b)
 				qb.priority = b.priority
-				s.hm.push(qb, true)
+				survivors = append(survivors, survivor{qb, true})
 			} else if s.popCompleted && !frame.noPop {
 				b.priority = s.popPriority
 				s.popPriority++
-				s.hm.push(b, false)
+				survivors = append(survivors, survivor{b, false})
 			} else if !frame.rmOnComplete {
-				s.hm.push(b, false)
+				survivors = append(survivors, survivor{b, false})
 			}
 		case 2:
 			if s.popCompleted && !frame.noPop {
@@ -411,7 +425,7 @@ func (s *pState) flush(cw *cwriter.Writer, height int, iter <-chan *Bar) error {
 			}
 			fallthrough
 		default:
-			s.hm.push(b, false)
+			survivors = append(survivors, survivor{b, false})
 		}
 	}
 
